@@ -79,3 +79,22 @@ void h_return_rank(void)
     for (int i = 0; i < VF_N; i++) if (i < n && i != w) VF_ASSERT(in_list(&xs[i]) && xs[i].rank == rk[i], "the others stay");
     VF_REACH("return_rank");
 }
+
+/* ---- unlinking a stream from a rank list of ANY length (loop-free): window (predecessor, stream, successor) ---- */
+void h_rank_remove_window(void)
+{
+    static ABTI_xstream P, X, S; { ABTI_xstream a, b, c; P = a; X = b; S = c; } ABTI_xstream P0, S0;
+    int has_pred, has_succ; ABTI_xstream *far_head, *pp, *sn; VF_ASSUME(far_head != &X && far_head != NULL && pp != &X && sn != &X); /* list nodes are distinct */
+    lk_held = 0; n_acq = n_rel = 0;
+    X.p_prev = has_pred ? &P : NULL; X.p_next = has_succ ? &S : NULL; P.p_next = &X; P.p_prev = pp; S.p_prev = &X; S.p_next = sn;
+    VF_ASSUME(P.rank >= 0 && P.rank < X.rank && X.rank < S.rank); /* sorted, strictly increasing */
+    glob.p_xstream_head = has_pred ? ((far_head == &S) ? &P : far_head) : &X; ABTI_xstream *head0 = glob.p_xstream_head;
+    { int m; VF_ASSUME(m >= 1 && m < 1000000); glob.num_xstreams = m; } int num0 = glob.num_xstreams; P0 = P; S0 = S;
+    xstream_return_rank(&glob, &X);
+    VF_ASSERT(!lk_held && n_acq == 1 && n_rel == 1, "the stream-list lock is taken and released exactly once");
+    VF_ASSERT(glob.num_xstreams == num0 - 1, "one stream fewer");
+    VF_ASSERT(has_pred ? (P.p_next == (has_succ ? &S : NULL) && glob.p_xstream_head == head0) : glob.p_xstream_head == (has_succ ? &S : NULL), "the predecessor (or the list head) leads to the successor: the list is R without this stream, order kept");
+    if (has_succ) VF_ASSERT(S.p_prev == (has_pred ? &P : NULL), "the successor's back link names the predecessor (NULL for a new head)");
+    VF_ASSERT(P.rank == P0.rank && S.rank == S0.rank && P.p_prev == pp && S.p_next == sn && (has_succ || (S.p_prev == S0.p_prev)) && (has_pred || P.p_next == P0.p_next), "neighbours keep their ranks and their other links: ranks stay sorted and distinct");
+    VF_REACH("rank remove window"); VF_COVER(has_pred && has_succ, "middle"); VF_COVER(!has_pred && has_succ, "head"); VF_COVER(has_pred && !has_succ, "tail"); VF_COVER(!has_pred && !has_succ, "only stream");
+}
